@@ -38,7 +38,7 @@ def corpus(tier, seed):
         std_spec("angle2", s + 23, 50, reparameterisations={"y": "rescaletobounds"}),
         std_spec("rosen2", s + 24, 50, reparameterisations={"x1": {"reparameterisation": "default"}}),
         # different bounds per parameter, proposal order != model.names, likelihood mass at the narrow edge
-        std_spec("rect2", s + 25, 50, reparameterisations={"x1": "rescaletobounds"}),
+        std_spec("rect2", s + 25, 50, reparameterisations={"c": "rescaletobounds"}),
         std_spec("rect2", s + 26, 50),
         # prior that is -inf inside the bounds (disc in a box)
         std_spec("disc2", s + 27, 50),
